@@ -54,6 +54,14 @@ claim("C12",
       "Trusted: the facts extractor and graph walker; the closure model abstracts the memo table (structural positions instead of type-object identity) - the memoised DFS's termination is not proved, only observed.",
       "Coq proof (closure soundness/closedness by induction on fuel) + node-by-node graph correspondence", "DESIGN.md §5 C12")
 
+claim("C09",
+      "Coq theorems over all field lists and tags (reflect.StructTag.Get modelled byte by byte for tags without escapes): a field is selected iff encoding/json serialises it and it is not gomacro-ignored; "
+      "the emitted key list equals encoding/json's key list of the struct without its ignored fields whenever tag names are valid; adding/removing an ignored field anywhere leaves the key list unchanged. "
+      "Tied to /repo per struct node: Exported()/JSONName() of every field against the model; the key lists read back from the real TypeScript, Dart and SQL-validator texts against the model and against the keys written by the real encoding/json "
+      "(struct rebuilt with reflect.StructOf); metamorphic pairs (module, module + ignored field) must give identical TypeScript/Dart texts and unchanged validators.",
+      "Trusted: regex readers of the three outputs (key lists only); reflect.StructOf reconstruction; class restrictions: no backslash escapes in tags, no key conflict between flattened embedded structs (guard evaluated per case).",
+      "Coq proof (tag scanner, list lemmas) + field-table/key-list correspondence + real encoding/json oracle + metamorphic oracle", "DESIGN.md §5 C09")
+
 NOT_YET = "check not built yet in this round (planned, see DESIGN.md §6)"
 
 checks, na = [], []
